@@ -111,7 +111,7 @@ def flag_encoding(chk, prog, config="default"):
              detail="the tagged vtable word is also written by %s, which the encode/decode analysis does not cover: the "
                     "vtable of a live object could be rewritten (it would be destructed as another type)" % extra,
              sample={"writers": writers})
-    chk.floor("vtable-word-writers[%s]" % config, len(writers), 3)
+    chk.floor("vtable-word-writers[%s]" % config, len(writers), 2)
 
     def read_all(st):
         res = {}
